@@ -36,6 +36,9 @@ class Top(param.Parameterized):
     def user_cb2(self, *events):
         self.calls.append(('user_cb2', events[0].new))
 
+    def user_cb3(self, *events):
+        self.calls.append(('user_cb3', tuple(sorted(e.name for e in events))))
+
 
 class Slotted(Top):
     """declares its own __slots__ (ordinary attribute stored in a slot)"""
